@@ -209,6 +209,8 @@ class Evaluator:
         if isinstance(base, VObj):
             if attr in base.f:
                 return base.f[attr]
+            if base.cls == 'SCFG' and attr == 'concealed_region_view':
+                return VObj('ConcealedRegionView', {'scfg': base})        # the property: ConcealedRegionView(self)
             return ('boundmethod', base, attr)
         if isinstance(base, V) and base.ty == T_BLOCK:
             fields = [n for n, _ in S.BLOCK_FIELDS]
@@ -2518,7 +2520,7 @@ class Engine:
                 self.add_obligation(path, 'yield-item', ast.unparse(st.value),
                                     self.spec_formula(ast.parse(self.c.yield_check, mode='eval').body, dict(path.env, it=v), path))
             if self.c.yield_key is not None:
-                v = S.pair_get(v, self.c.yield_key)
+                v = S.seq_get(v, IntVal(self.c.yield_key)) if v.ty[0] == 'seq' else S.pair_get(v, self.c.yield_key)
             self.add_obligation(path, 'yield-once', ast.unparse(st.value), Not(Select(cur.t, v.t)))
             path.env['_yielded'] = V(cur.ty, Store(cur.t, v.t, True))
             return [(path, None)]
@@ -2968,12 +2970,31 @@ class Engine:
                     fv = ev.ev(it_node.func, path, False)
                 except Unsupported:
                     fv = None
+                view_items = None
+                if isinstance(fv, tuple) and fv[0] == 'boundmethod' and fv[1].cls == 'ConcealedRegionView' and fv[2] == 'items' \
+                        and not it_node.args and isinstance(st.target, ast.Tuple) and len(st.target.elts) == 2:
+                    # Mapping.items() of the view: (k, view[k]) for k in iter(view); iter(view) is region_view_iterator()
+                    self.assumptions_used.add('collections.abc.Mapping.items() of a ConcealedRegionView yields (k, view[k]) for the k of '
+                                              'iter(view) = region_view_iterator() (library mixin, trusted)')
+                    view_items = fv[1]
+                    fv = ('boundmethod', fv[1], 'region_view_iterator')
                 if isinstance(fv, tuple) and fv[0] == 'boundmethod':
                     q = '%s:%s.%s' % (OBJ_MODULE[fv[1].cls], fv[1].cls, fv[2])
                     c = REGISTRY.get(q)
                     if c is not None and c.yields:
-                        vals, _ = self.bind_args(c, it_node, ev, path, False, fv[1])
-                        itv = Evaluator(self, q.split(':')[0]).ev(ast.parse(c.yields, mode='eval').body, Path(dict(vals), path.hyps), True)
+                        if view_items is not None:
+                            vals = {'self': view_items, 'head': S.opt_none(T_NAME)}
+                        else:
+                            vals, _ = self.bind_args(c, it_node, ev, path, False, fv[1])
+                        cm_ = q.split(':')[0]
+                        site_ = ast.unparse(it_node)
+                        for cn, text in c.requires.items():
+                            self.add_obligation(path, 'call-pre', '%s:%s' % (site_, cn),
+                                                self.spec_formula(ast.parse(text, mode='eval').body, vals, path, cm_))
+                        for exc, text in c.raises.items():
+                            self.add_obligation(path, 'noraise', '%s raises %s' % (site_, exc),
+                                                Not(self.spec_formula(ast.parse(text, mode='eval').body, vals, path, cm_)), exc)
+                        itv = Evaluator(self, cm_).ev(ast.parse(c.yields, mode='eval').body, Path(dict(vals), path.hyps), True)
             if itv is None:
                 it_once = it_node
                 if not (isinstance(it_node, ast.Call) and isinstance(it_node.func, ast.Attribute) and it_node.func.attr in ('items', 'keys', 'values')):
@@ -3001,8 +3022,13 @@ class Engine:
                 mode = 'set'
                 qt = itv.ty[1]
                 whole = itv
-                tname = st.target.id
-                bind = lambda q: {tname: V(qt, q)}
+                if view_items is not None:
+                    ka, va = st.target.elts[0].id, st.target.elts[1].id
+                    vg = view_items.f['scfg'].f['graph']
+                    bind = lambda q: {ka: V(qt, q), va: S.dict_get(vg, q)}
+                else:
+                    tname = st.target.id
+                    bind = lambda q: {tname: V(qt, q)}
                 dom = lambda q: Select(whole.t, q)
         entry = Namespace(dict(path.env))
         base_env = lambda p: dict(p.env, entry=entry, old=self.old_ns)
